@@ -40,7 +40,7 @@ package integrityblock
 //@   assigns accepted(enc.w), failed(enc.w), content(enc.w), wrapped(enc.w)
 
 //@ func (*IntegrityBlock).CborBytes
-//@   props C07
+//@   props C07 C18
 //@   may_panic
 //@   returns (bs, err)
 //@   requires ib != nil
@@ -59,7 +59,7 @@ package integrityblock
 // Data to be signed: the three parts in order, each prefixed by its length as
 // a 64-bit big-endian integer.
 //@ func GenerateDataToBeSigned
-//@   props C07
+//@   props C07 C18
 //@   may_panic
 //@   returns (d, err)
 //@   ensures[hash-part] err == nil ==> dtbsStartsWith(d, webBundleHash)
